@@ -423,3 +423,173 @@ Proof.
   assert (E : min_vot_del alts p = k) by lia. split; [assumption|].
   now apply (min_vot_del_correct alts p k Hnd Hc).
 Qed.
+
+(* ---------------------------------------------------------------------------------------------- *)
+(* 5. monotonicity under restriction to a subset of the alternatives                               *)
+
+(* restrict_order and delete_order are both "filter every class, drop the emptied ones" *)
+Definition fclasses (f : N -> bool) (o : order) : order :=
+  filter (fun c => negb (is_nil c)) (map (filter f) o).
+
+Lemma restrict_order_fc S o : restrict_order S o = fclasses (fun a => memN a S) o.
+Proof. reflexivity. Qed.
+Lemma delete_order_fc D o : delete_order D o = fclasses (fun a => negb (memN a D)) o.
+Proof. reflexivity. Qed.
+
+Lemma fclasses_cons f c r :
+  fclasses f (c :: r) = match filter f c with [] => fclasses f r | x :: fc => (x :: fc) :: fclasses f r end.
+Proof. unfold fclasses. simpl. destruct (filter f c); reflexivity. Qed.
+
+Lemma fclasses_fclasses f g o : fclasses f (fclasses g o) = fclasses (fun a => g a && f a) o.
+Proof.
+  induction o as [|c r IH]; [reflexivity|].
+  rewrite (fclasses_cons g), (fclasses_cons (fun a => g a && f a)), <- (filter_filter_and f g c).
+  destruct (filter g c) as [|x fc] eqn:E.
+  - simpl. exact IH.
+  - rewrite fclasses_cons. destruct (filter f (x :: fc)); now rewrite IH.
+Qed.
+
+Lemma fclasses_ext f g o : (forall a, f a = g a) -> fclasses f o = fclasses g o.
+Proof.
+  intros E. unfold fclasses. f_equal. apply map_ext. intros c. now apply filter_ext.
+Qed.
+
+Lemma delete_restrict_comm D S o :
+  delete_order D (restrict_order S o) = restrict_order S (delete_order D o).
+Proof.
+  rewrite !restrict_order_fc, !delete_order_fc, !fclasses_fclasses. apply fclasses_ext.
+  intros a. apply andb_comm.
+Qed.
+
+Lemma keepN_restrict_comm D S l : keepN D (restrict_alts S l) = restrict_alts S (keepN D l).
+Proof. unfold keepN, restrict_alts. apply filter_comm. Qed.
+
+Lemma delete_alts_restrict_comm D S p :
+  delete_alts D (map (restrict_order S) p) = map (restrict_order S) (delete_alts D p).
+Proof.
+  unfold delete_alts. rewrite !map_map. apply map_ext. intros o. apply delete_restrict_comm.
+Qed.
+
+Lemma complete_on_restrict_profile S alts p : Forall (complete_on alts) p ->
+  Forall (complete_on (restrict_alts S alts)) (map (restrict_order S) p).
+Proof.
+  intros Hc. rewrite Forall_forall in *. intros o' Ho'. apply in_map_iff in Ho'.
+  destruct Ho' as (o & <- & Ho). apply complete_on_restrict. now apply Hc.
+Qed.
+
+(* a deletion set that works for the profile works for its restriction to S *)
+Lemma AltDel_restrict alts p D S : AltDel alts p D ->
+  AltDel (restrict_alts S alts) (map (restrict_order S) p) D.
+Proof.
+  unfold AltDel. intros H. apply (sp_restrict _ _ S) in H.
+  now rewrite keepN_restrict_comm, delete_alts_restrict_comm.
+Qed.
+
+Lemma VotDel_restrict alts p V S : VotDel alts p V ->
+  VotDel (restrict_alts S alts) (map (restrict_order S) p) V.
+Proof.
+  unfold VotDel, remove_idx. intros H. apply (sp_restrict _ _ S) in H.
+  now rewrite remove_idx_from_map.
+Qed.
+
+Theorem opt_restrict_mono_alt alts p S : NoDup alts -> Forall (complete_on alts) p ->
+  min_alt_del (restrict_alts S alts) (map (restrict_order S) p) <= min_alt_del alts p.
+Proof.
+  intros Hnd Hc. destruct (min_alt_del_witness alts p) as (D & _ & <- & Hok).
+  apply alt_del_ok_correct in Hok; [|assumption|assumption].
+  apply alt_del_bound.
+  - now apply NoDup_filter.
+  - now apply complete_on_restrict_profile.
+  - apply alt_del_ok_correct.
+    + now apply NoDup_filter.
+    + now apply complete_on_restrict_profile.
+    + now apply AltDel_restrict.
+Qed.
+
+Theorem opt_restrict_mono_vot alts p S : NoDup alts -> Forall (complete_on alts) p ->
+  min_vot_del (restrict_alts S alts) (map (restrict_order S) p) <= min_vot_del alts p.
+Proof.
+  intros Hnd Hc. destruct (min_vot_del_witness alts p) as (V & _ & <- & Hok).
+  apply vot_del_ok_correct in Hok; [|assumption|assumption].
+  apply vot_del_bound. apply vot_del_ok_correct.
+  - now apply NoDup_filter.
+  - now apply complete_on_restrict_profile.
+  - now apply VotDel_restrict.
+Qed.
+
+(* ---------------------------------------------------------------------------------------------- *)
+(* 6. monotonicity under removal of orders (no hypothesis on the profile is needed)                *)
+
+Lemma spw_decide_incl alts q q' : incl q' q -> spw_decide alts q = true -> spw_decide alts q' = true.
+Proof.
+  intros Hi. unfold spw_decide. rewrite !existsb_exists. intros (axis & Hin & H). exists axis.
+  split; [assumption|]. unfold sp_axis_profile in *. rewrite forallb_forall in *.
+  intros o Ho. apply H. now apply Hi.
+Qed.
+
+Theorem opt_subprofile_mono_alt alts p p' : incl p' p -> min_alt_del alts p' <= min_alt_del alts p.
+Proof.
+  intros Hi. destruct (min_alt_del_witness alts p) as (D & Hs & <- & Hok).
+  unfold min_alt_del. apply least_le. apply alt_del_k_intro; [assumption|].
+  unfold alt_del_ok in *. eapply spw_decide_incl; [|exact Hok].
+  unfold delete_alts. now apply incl_map.
+Qed.
+
+(* every sublist of p is obtained by removing an index set of the complementary size *)
+Lemma sublist_as_remove_idx (q p : list order) : sublist q p -> forall i, exists V,
+  remove_idx_from V i p = q /\ length V + length q = length p /\ forall v, In v V -> i <= v.
+Proof.
+  induction 1 as [l|x s l _ IH|x s l _ IH]; intros i.
+  - exists (seq i (length l)). split; [|split].
+    + apply remove_idx_from_all. intros j Hj. apply mem_nat_In. apply in_seq. lia.
+    + rewrite seq_length. simpl. lia.
+    + intros v Hv. apply in_seq in Hv. lia.
+  - destruct (IH (S i)) as (V & E & Hl & Hge). exists (i :: V). split; [|split].
+    + simpl. rewrite Nat.eqb_refl. simpl. rewrite <- E. apply remove_idx_from_ext.
+      intros j Hj. simpl. destruct (Nat.eqb_spec j i) as [->|_]; [lia|reflexivity].
+    + simpl. lia.
+    + intros v [<-|Hv]; [lia|]. apply Hge in Hv. lia.
+  - destruct (IH (S i)) as (V & E & Hl & Hge). exists V. split; [|split].
+    + simpl. assert (Hm : mem_nat i V = false).
+      { apply mem_nat_false. intros Hin. apply Hge in Hin. lia. }
+      rewrite Hm, E. reflexivity.
+    + simpl. lia.
+    + intros v Hv. apply Hge in Hv. lia.
+Qed.
+
+(* two sublists of the same list have a common sublist that loses nothing more than either *)
+Lemma sublist_meet {T} (p p' q : list T) : sublist p' p -> sublist q p -> exists q',
+  sublist q' p' /\ incl q' q /\ length q + length p' <= length q' + length p.
+Proof.
+  intros Hp'. revert q. induction Hp' as [l|x s l Hsl IH|x s l Hsl IH]; intros q Hq.
+  - exists []. split; [apply sl_nil|]. split; [intros a []|]. apply sublist_length in Hq. simpl. lia.
+  - inversion Hq; subst.
+    + exists []. split; [apply sl_nil|]. split; [intros a []|]. apply sublist_length in Hsl. simpl. lia.
+    + destruct (IH q H1) as (q' & H1' & H2' & H3'). exists q'. split; [assumption|].
+      split; [assumption|]. simpl. lia.
+    + destruct (IH s0 H1) as (q' & H1' & H2' & H3'). exists q'. split; [assumption|].
+      split; [intros a Ha; right; now apply H2'|]. simpl. lia.
+  - inversion Hq; subst.
+    + exists []. split; [apply sl_nil|]. split; [intros a []|]. apply sublist_length in Hsl. simpl. lia.
+    + destruct (IH q H1) as (q' & H1' & H2' & H3'). exists q'. split; [now apply sl_skip|].
+      split; [assumption|]. simpl. lia.
+    + destruct (IH s0 H1) as (q' & H1' & H2' & H3'). exists (x :: q'). split; [now apply sl_take|].
+      split; [|simpl; lia]. intros a [<-|Ha]; [now left|right; now apply H2'].
+Qed.
+
+Lemma remove_idx_lower_length V p : length p <= length (remove_idx V p) + length V.
+Proof.
+  pose proof (remove_idx_from_length V 0 p) as H. pose proof (norm_idx_length (length p) V) as H2.
+  unfold norm_idx in H2. unfold remove_idx. lia.
+Qed.
+
+Theorem opt_subprofile_mono_vot alts p p' : sublist p' p -> min_vot_del alts p' <= min_vot_del alts p.
+Proof.
+  intros Hs. destruct (min_vot_del_witness alts p) as (V & _ & <- & Hok).
+  destruct (sublist_meet p p' (remove_idx V p) Hs (remove_idx_sublist V p)) as (q' & Hq' & Hincl & Hlen).
+  destruct (sublist_as_remove_idx q' p' Hq' 0) as (V' & E & HlV' & _).
+  apply Nat.le_trans with (length V').
+  - apply vot_del_bound. unfold vot_del_ok, remove_idx in *. rewrite E.
+    eapply spw_decide_incl; [exact Hincl|exact Hok].
+  - pose proof (remove_idx_lower_length V p). lia.
+Qed.
